@@ -2,9 +2,12 @@
    Proofs/CodeSweep.v and Proofs/Utf8P.v.  The three finite code spaces named by the property are
    covered completely: block lengths 1..=32767 and sample rates 1..=96000 by sweeps inside Coq
    against the implementation's own tables (GenTables.v), frame numbers by arithmetic for every
-   value below 2^36.  That whole streams pass the strict validator is checked on every run with
-   the extracted Flac.strict_ok (see DESIGN.md, C02). *)
-From FV Require Import GenTables Model.Base Model.Codes Proofs.CodeSweep Proofs.Utf8P.
+   value below 2^36.  That whole streams pass the strict validator (sync code, reserved bits, CRC-8 / CRC-16, zero
+   padding, subframe limits, frame numbering from 0, agreement of every frame with STREAMINFO, block-size rules, sample
+   total, no trailing bytes: Flac.strict_ok) is a theorem about the encoder model (C02_emitted_stream_strict) and is
+   additionally checked on every run with the extracted Flac.strict_ok on the implementation's bytes. *)
+From FV Require Import GenTables Generated Model.Base Model.Codes Model.Rice Model.Predict Model.Component Model.Flac Model.Encoder
+  Proofs.CodeSweep Proofs.Utf8P Proofs.EncodeFrameE2E Proofs.DecodeStream.
 Local Open Scope N_scope.
 
 Theorem C02_block_size_codes : forall n, 1 <= n <= 32767 ->
@@ -26,3 +29,19 @@ Print Assumptions C02_number_roundtrip.
 Theorem C02_number_defined : forall v, v < 2 ^ 36 -> exists bytes, utf8like v = Ok bytes.
 Proof. exact utf8_defined. Qed.
 Print Assumptions C02_number_defined.
+
+(* every stream the encoder model emits satisfies every clause of the strict RFC 9639 validator
+   (block_hyps: the named hypotheses on the estimator oracle, see C01) *)
+Theorem C02_emitted_stream_strict :
+  forall (ent : N -> N -> N -> N) (qlpc : N -> N -> qparams) (md5 : list N -> list N)
+         cfg rate channels bps bs samples bytes (total : nat),
+    encode_stream_bytes ent qlpc md5 cfg rate channels bps bs samples = Ok bytes ->
+    cfg_max_parameter cfg <= 14 -> In bps [8; 12; 16; 20; 24] -> 1 <= rate < 2 ^ 20 -> 1 <= channels <= 8 ->
+    16 <= bs <= c_MAX_BLOCK_SIZE ->
+    length samples = (total * N.to_nat channels)%nat -> N.of_nat total < 2 ^ 36 ->
+    length (md5 (md5_input bps samples)) = 16%nat -> Forall (fun x => x < 256) (md5 (md5_input bps samples)) ->
+    (forall j b, nth_error (chunks (N.to_nat (bs * channels)) samples) j = Some b ->
+                 block_hyps qlpc cfg (N.of_nat j) channels bps b (length b / N.to_nat channels)) ->
+    strict_ok bytes = true.
+Proof. exact stream_strict_ok. Qed.
+Print Assumptions C02_emitted_stream_strict.
